@@ -973,6 +973,9 @@ def untake(x, idx, vs):
         idx = onp.array(idx, dtype="int64")
 
     def mut_add(A):
+        if not isinstance(A, onp.ndarray):
+            # the sum of two 0-d cotangents is a NumPy scalar, which add.at cannot write into
+            A = onp.array(A)
         onp.add.at(A, idx, x)
         return A
 
